@@ -7,6 +7,7 @@ import (
 	"math/rand"
 	"net/smtp"
 	"strings"
+	"sync"
 	"text/template"
 	"time"
 
@@ -65,9 +66,18 @@ func (s SMTPMailer) Send(ctx context.Context, mail authboss.Email) error {
 // and create a random string of length 23
 // Example:
 // 284fad24nao8f4na284f2n4
+// boundaryMu guards the rand of every SMTPMailer (the struct is copied by
+// its value receivers, so the lock cannot live inside it).
+var boundaryMu sync.Mutex
+
 func (s SMTPMailer) boundary() string {
 	const alphabet = "abcdefghijklmnopqrstuvwxyz0123456789"
 	buf := &bytes.Buffer{}
+
+	// Send is called from many goroutines at once (one per request) and a
+	// *rand.Rand is not safe for concurrent use.
+	boundaryMu.Lock()
+	defer boundaryMu.Unlock()
 
 	for i := 0; i < 23; i++ {
 		buf.WriteByte(alphabet[s.rand.Int()%len(alphabet)])
